@@ -16,6 +16,7 @@
 from typing import Callable, Iterable, Iterator, Optional, Tuple, Union
 
 from pyglove.core import symbolic
+from pyglove.core.utils import _verif_hooks
 from pyglove.core.geno.base import DNA
 from pyglove.core.geno.base import DNASpec
 
@@ -70,9 +71,11 @@ class DNAGenerator(symbolic.Object):
   def setup(self, dna_spec: DNASpec) -> None:
     """Setup DNA spec."""
     self._dna_spec = dna_spec
+    _verif_hooks.emit('alg_setup_begin', aid=id(self))
     self._num_proposals = 0
     self._num_feedbacks = 0
     self._setup()
+    _verif_hooks.emit('alg_setup', aid=id(self))
 
   def _setup(self) -> None:
     """Subclass should override this for adding additional setup logics."""
@@ -105,6 +108,7 @@ class DNAGenerator(symbolic.Object):
     """Propose a DNA to evaluate."""
     dna = self._propose()
     self._num_proposals += 1
+    _verif_hooks.emit('propose', aid=id(self), nprop=self._num_proposals)
     return dna
 
   def _propose(self) -> DNA:
@@ -130,6 +134,7 @@ class DNAGenerator(symbolic.Object):
         reward = reward[0]
       self._feedback(dna, reward)
     self._num_feedbacks += 1
+    _verif_hooks.emit('alg_feedback', aid=id(self), nfb=self._num_feedbacks)
 
   def _feedback(self, dna: DNA, reward: Union[float, Tuple[float]]) -> None:
     """Actual feedback method which should be implemented by the child class.
